@@ -82,9 +82,9 @@ def _run(ctx):
     nm = 600 if quick else 15000
     for k in range(nm):
         f = c01.rand_format(ctx.rng)
-        kind = ctx.rng.choice(["surplus", "unknown", "flagvalue", "stripvalue", "dropreq", "unknownval", "overdash", "unkshort"])
+        kind = ctx.rng.choice(["surplus", "unknown", "flagvalue", "stripvalue", "dropreq", "unknownval", "overdash", "unkshort", "surplussep"])
         # the shape is a hint that makes the mutation applicable more often; TLC decides applicability (MutPre)
-        rc = c01.rand_recipe(ctx.rng, f, {"surplus": "allpos", "dropreq": "reqlast"}.get(kind))
+        rc = c01.rand_recipe(ctx.rng, f, {"surplus": "allpos", "surplussep": "allpos", "dropreq": "reqlast"}.get(kind))
         j = ctx.rng.randint(1, max(1, len(f["opts"])))
         want = {"flagvalue": ("none",), "stripvalue": ("req", "multi")}.get(kind)
         if want:  # a hint only: TLC decides applicability (MutPre)
@@ -94,6 +94,8 @@ def _run(ctx):
         toks = c01.render(f, rc)
         if kind == "surplus":
             toks = toks + ["zz9"]
+        elif kind == "surplussep":
+            toks = toks + (["--"] if any(it["k"] == "sep" for it in rc) else ["--", "--"])
         elif kind == "unknown":
             toks = toks + ["--zz9"]
         elif kind == "unknownval":
